@@ -40,6 +40,10 @@ func (w *World) Regimes() map[string][]string {
 	out["canceled"] = append(append([]string{}, late...), fmt.Sprintf("cancel:%d", reps[0]), "empty", "empty", "empty")
 	out["v2"] = append(append([]string{}, late...), "stake:0", "upv2:0", "upv2:1", "upv2:2", "v2vote:0>0", "v2vote:0>1", "v2vote:0>2", "empty", "empty")
 	out["v2active"] = append(append([]string{}, out["v2"]...), "empty", "empty", "empty", "empty")
+	// public DPoS just started (height 10): CRC seats are still the configured keys, the two
+	// normal seats are elected producers; the free blocks lie in [CRVotingStartHeight, new-CR era)
+	// where illegal-block evidence forces an arbiter change under the DPoS 1.0 reward rules
+	out["public"] = append([]string{}, late[:10]...)
 	// late + voter 0 staked and the two representative producers upgraded to v1+v2 but without
 	// any v2 vote: the free blocks lift them to just below / exactly at / above
 	// DPoSV2EffectiveVotes (membership of DposV2EffectedProducers)
@@ -56,7 +60,7 @@ func (w *World) Regimes() map[string][]string {
 }
 
 // RegimeNames lists the regimes in exploration order.
-var RegimeNames = []string{"early", "late", "inactive", "canceled", "v2", "v2active", "returned", "v2ready"}
+var RegimeNames = []string{"early", "late", "inactive", "canceled", "v2", "v2active", "returned", "v2ready", "public"}
 
 // StateCanonOpts are the canonicalisation options under which two DPoS states are compared.
 var StateCanonOpts = &CanonOpts{
